@@ -97,7 +97,9 @@ def main(tier, seed):
               'Table t {\r\n id int\r\n}\r\n',
               # the text must arrive untouched on every route: no Unicode normalisation, case folding or character mapping
               'Table "cafe\u0301" {\n "e\u0301" int [note: \'A\u030a \u212b \ufb01 \uff21 \u1e9e \u0130 \u017f\']\n}\nNote n {\n \'x\u0301 \u00a0 \u200d \u00ad\'\n}\n',
-              'Enum "\u2126" {\n "\u03a9"\n "K"\n "\u212a"\n}\nTable t {\n c "\u2126"\n d "\u03a9"\n}\n']
+              'Enum "\u2126" {\n "\u03a9"\n "K"\n "\u212a"\n}\nTable t {\n c "\u2126"\n d "\u03a9"\n}\n',
+              # U+FEFF inside the document is content (zero width no-break space), only a LEADING one is a byte-order mark
+              'Table "a\ufeffb" {\n "c\ufeff" int [note: \'x\ufeffy\', default: \'\ufeff\']\n}\nNote n {\n \'\ufeffz\'\n}\n']
     tmpdir = tempfile.mkdtemp(prefix='verif_c12_')
     reqs, obs = [], []
     try:
